@@ -1,7 +1,7 @@
 (* C04 — no transaction sequence halts the chain; updates are always valid for CometBFT. *)
 From stdpp Require Import gmap.
 Require Import Model.Base Model.State Model.Staking Model.Slashing Model.Poa Model.App.
-Require Import proofs.Inv proofs.InvPres proofs.InvMsgs proofs.InvHistory proofs.InvComet proofs.L1More.
+Require Import proofs.Inv proofs.InvPres proofs.InvMsgs proofs.InvHistory proofs.InvComet proofs.InvQueue proofs.InvPools proofs.L1More.
 
 (* after every block of every history from every (non-negative) genesis — any number of blocks, any in-block
    order of any messages of the modelled alphabet, any downtime pattern, any time steps — the chain invariant
@@ -30,6 +30,24 @@ Theorem C04_never_removes_a_non_member : forall g bs b,
   let w := run_world (init_world g) bs in
   w_halted w = None -> w_halted (fst (run_block w b)) <> Some (HComet 3).
 Proof. intros g bs b Hg w Hh. apply block_safe_members; [apply run_world_WI; apply init_world_WI; exact Hg|exact Hh]. Qed.
+
+(* ... nor on the unbonding queue (3): every queued address has an unbonding record carrying the queue key it is filed
+   under, at most once, and a record without shares holds no tokens — so "validator in the unbonding queue was not
+   found", "unexpected validator in unbonding queue" and "attempting to remove a validator which still contains
+   tokens" are unreachable in every history *)
+Theorem C04_queue_invariant_of_every_reachable_state : forall g bs,
+  wf_genesis g -> QI (stk (w_chain (run_world (init_world g) bs))).
+Proof. exact reachable_QI. Qed.
+
+Theorem C04_never_halts_on_the_unbonding_queue : forall g bs,
+  wf_genesis g -> w_halted (run_world (init_world g) bs) <> Some (HEndBlock 3).
+Proof. exact history_no_queue_halt. Qed.
+
+(* ... nor for lack of funds in a pool (4). Altogether: x/staking's EndBlocker returns no error in any block of any
+   history, whatever the transactions, the downtime pattern and the time steps were *)
+Theorem C04_endblocker_never_fails : forall g bs e,
+  wf_genesis g -> w_halted (run_world (init_world g) bs) <> Some (HEndBlock e).
+Proof. exact history_endblock_never_halts. Qed.
 
 (* the EndBlocker's own contract, for any store satisfying the invariant and index sets of any size *)
 Theorem C04_endblocker_contract : forall c,
